@@ -292,7 +292,7 @@ Lemma headers_step_handled cfg st sid ended fs st' ev :
   (invoked st st' /\ exists l tset md path, read_meta (c_limit cfg) fs = MFrame l false /\
      Z.even sid = false /\ s_max st < sid /\
      decide_req (alive st) (lenZ (s_active st)) (c_maxs cfg) l = DAccept tset md path /\
-     st' = mkst sid (s_active st ++ [(sid, b2z ended)]) (s_handled st + 1) (s_mode st) (s_post st)).
+     st' = mkst sid (s_active st ++ [(sid, b2z ended)]) (s_handled st + 1) (s_mode st) (s_post st) (s_win st)).
 Proof.
   unfold headers_step, stream_error, with_active.
   destruct (read_meta _ fs) as [|l [|]] eqn:R.
@@ -309,7 +309,7 @@ Theorem accept_implies_legal cfg st sid ended fs st' ev :
   headers_step cfg st sid ended fs = (st', ev) -> s_handled st' <> s_handled st ->
   Z.odd sid = true /\ s_max st < sid /\ s_mode st = 0 /\ lenZ (s_active st) < c_maxs cfg /\
   legal_request fs /\ forallb field_wire_ok fs = true /\
-  st' = mkst sid (s_active st ++ [(sid, b2z ended)]) (s_handled st + 1) (s_mode st) (s_post st).
+  st' = mkst sid (s_active st ++ [(sid, b2z ended)]) (s_handled st + 1) (s_mode st) (s_post st) (s_win st).
 Proof.
   intros H Hn. apply headers_step_handled in H as [H|[_ (l & tset & md & path & R & Ev & Hm & D & ->)]];
     [contradiction|].
@@ -325,7 +325,7 @@ Theorem refused_over_limit cfg st sid ended fs :
   s_mode st = 0 -> legal_id (s_max st) sid = true -> admissible (c_limit cfg) fs = true ->
   c_maxs cfg <= lenZ (s_active st) ->
   headers_step cfg st sid ended fs =
-  (mkst sid (s_active st) (s_handled st) (s_mode st) (s_post st), ev_rst sid E_REFUSED).
+  (mkst sid (s_active st) (s_handled st) (s_mode st) (s_post st) (s_win st), ev_rst sid E_REFUSED).
 Proof.
   intros Hm Hid Had Hn. unfold headers_step, admissible in *.
   destruct (read_meta _ fs) as [|l [|]]; try discriminate.
@@ -346,7 +346,7 @@ Qed.
 Theorem illegal_id_is_conn_error cfg st sid ended fs l :
   read_meta (c_limit cfg) fs = MFrame l false -> (Z.even sid = true \/ sid <= s_max st) ->
   headers_step cfg st sid ended fs =
-  (mkst (s_max st) (s_active st) (s_handled st) 1 (s_post st), out st [7; s_max st; E_PROTOCOL; 0]).
+  (mkst (s_max st) (s_active st) (s_handled st) 1 (s_post st) (s_win st), out st [7; s_max st; E_PROTOCOL; 0]).
 Proof.
   intros R H. unfold headers_step. rewrite R.
   destruct H as [H|H]; [rewrite H; reflexivity|].
@@ -367,9 +367,46 @@ Qed.
 
 Definition bounded (cfg : config) (st : sstate) : Prop := lenZ (s_active st) <= c_maxs cfg.
 
+(* the application finishing a stream (with or without a message) and a WINDOW_UPDATE never
+   invoke a handler, never change the connection mode, never add an active stream and never
+   produce a GOAWAY or a close *)
+Lemma finish_op_facts cfg st sid wr :
+  let r := finish_op cfg st sid wr in
+  s_handled (fst r) = s_handled st /\ s_mode (fst r) = s_mode st /\
+  lenZ (s_active (fst r)) <= lenZ (s_active st) /\ down_event (snd r) = false.
+Proof.
+  cbv zeta. unfold finish_op.
+  destruct (find_stream sid (s_active st)) as [s|]; [|cbn; repeat split; lia].
+  assert (Hd := del_stream_len sid (s_active st)).
+  destruct (2 <=? s); [cbn; repeat split; lia|].
+  destruct (c_tiny cfg).
+  - unfold out. destruct (alive st); cbn; repeat split; auto.
+  - destruct (alive st).
+    + destruct wr as [n|].
+      * destruct (0 <=? window cfg st sid - (5 + n)).
+        -- destruct (s =? 0); cbn; repeat split; auto.
+        -- cbn. rewrite set_stream_len. repeat split; auto; lia.
+      * destruct (s =? 0); cbn; repeat split; auto.
+    + cbn. rewrite set_stream_len. repeat split; auto; lia.
+Qed.
+Lemma window_op_facts cfg st sid inc :
+  let r := exec_op cfg st (OWindow sid inc) in
+  s_handled (fst r) = s_handled st /\ s_mode (fst r) = s_mode st /\
+  lenZ (s_active (fst r)) <= lenZ (s_active st) /\ down_event (snd r) = false.
+Proof.
+  cbv zeta. cbn [exec_op]. destruct (alive st); [|cbn; repeat split; lia].
+  destruct (find_stream sid (s_active st)) as [s|]; [|cbn; repeat split; lia].
+  assert (Hd := del_stream_len sid (s_active st)).
+  destruct ((3 <=? s) && (0 <=? window cfg st sid + inc)).
+  - destruct (s =? 3); cbn; repeat split; auto.
+  - cbn. repeat split; auto; lia.
+Qed.
+Lemma alive_mode st st' : s_mode st' = s_mode st -> alive st' = alive st.
+Proof. unfold alive. intros ->. reflexivity. Qed.
+
 Lemma exec_op_bounded cfg st o : bounded cfg st -> bounded cfg (fst (exec_op cfg st o)).
 Proof.
-  unfold bounded. intros B. destruct o as [sid ended fs|sid|sid|sid ended| |sid]; cbn [exec_op].
+  unfold bounded. intros B. destruct o as [sid ended fs|sid|sid|sid ended| |sid|sid n|sid inc]; cbn [exec_op].
   - destruct (headers_step cfg st sid ended fs) as [st' ev] eqn:H. cbn [fst].
     destruct (headers_step_handled _ _ _ _ _ _ _ H) as [Hh|[_ (l & tset & md & path & R & _ & _ & D & ->)]].
     + (* not accepted: the active list did not grow *)
@@ -383,15 +420,14 @@ Proof.
       apply (decide_accept _ _ _ _ _ _ _ Hp) in D as (_ & Hn & _).
       rewrite lenZ_app. unfold lenZ at 2. cbn. lia.
   - cbn. pose proof (del_stream_len sid (s_active st)). lia.
-  - destruct (find_stream sid (s_active st)) as [s|]; [|exact B].
-    assert (Hd := del_stream_len sid (s_active st)). assert (Hs := set_stream_len sid 2 (s_active st)).
-    destruct s as [|[ | [ | | ] | ]|]; try exact B;
-      destruct (c_tiny cfg); cbn; try lia; destruct (alive st); cbn; lia.
+  - destruct (finish_op_facts cfg st sid None) as (_ & _ & H & _). lia.
   - destruct (find_stream sid (s_active st)) as [s|]; [|exact B].
     assert (Hd := del_stream_len sid (s_active st)). assert (Hs := set_stream_len sid 1 (s_active st)).
     destruct s as [|[ [ | | ] | | ]|]; cbn; try lia; destruct ended; cbn; lia.
   - cbn. unfold lenZ in *. cbn. lia.
   - cbn. pose proof (del_stream_len sid (s_active st)). lia.
+  - destruct (finish_op_facts cfg st sid (Some n)) as (_ & _ & H & _). lia.
+  - destruct (window_op_facts cfg st sid inc) as (_ & _ & H & _). cbn [exec_op] in H. lia.
 Qed.
 
 Lemma step_bounded cfg st o : bounded cfg st -> bounded cfg (fst (step cfg st o)).
@@ -412,7 +448,7 @@ Qed.
 Lemma exec_op_not_alive cfg st o : s_mode st <> 0 ->
   s_handled (fst (exec_op cfg st o)) = s_handled st /\ s_mode (fst (exec_op cfg st o)) <> 0.
 Proof.
-  intros Hm. destruct o as [sid ended fs|sid|sid|sid ended| |sid]; cbn [exec_op].
+  intros Hm. destruct o as [sid ended fs|sid|sid|sid ended| |sid|sid n|sid inc]; cbn [exec_op].
   - destruct (headers_step cfg st sid ended fs) as [st' ev] eqn:H. cbn [fst].
     assert (Hh := headers_step_handled _ _ _ _ _ _ _ H).
     destruct Hh as [Hh|[_ (l & tset & md & path & R & _ & _ & D & ->)]].
@@ -426,12 +462,13 @@ Proof.
       apply (decide_accept _ _ _ _ _ _ _ Hp) in D as (Hr & _). unfold alive in Hr.
       apply Z.eqb_eq in Hr. contradiction.
   - cbn. auto.
-  - destruct (find_stream sid (s_active st)) as [s|]; [|auto].
-    destruct s as [|[ | [ | | ] | ]|]; auto; destruct (c_tiny cfg); cbn; auto; destruct (alive st); cbn; auto.
+  - destruct (finish_op_facts cfg st sid None) as (H1 & H2 & _). rewrite H1, H2. auto.
   - destruct (find_stream sid (s_active st)) as [s|]; [|auto].
     destruct s as [|[ [ | | ] | | ]|]; cbn; auto; destruct ended; cbn; auto.
   - cbn. split; [reflexivity|lia].
   - cbn. auto.
+  - destruct (finish_op_facts cfg st sid (Some n)) as (H1 & H2 & _). rewrite H1, H2. auto.
+  - destruct (window_op_facts cfg st sid inc) as (H1 & H2 & _). cbn [exec_op] in H1, H2. rewrite H1, H2. auto.
 Qed.
 
 Lemma step_not_alive cfg st o : s_mode st <> 0 ->
@@ -439,7 +476,7 @@ Lemma step_not_alive cfg st o : s_mode st <> 0 ->
 Proof.
   intros Hm. unfold step. destruct (_ || _); [auto|].
   destruct (Z.eqb_spec (s_mode st) 1) as [E|E].
-  - set (st1 := mkst _ _ _ _ _). assert (H1 : s_mode st1 <> 0) by (cbn; exact Hm).
+  - set (st1 := mkst _ _ _ _ _ _). assert (H1 : s_mode st1 <> 0) by (cbn; exact Hm).
     destruct (exec_op_not_alive cfg st1 o H1) as [A B]. split; [rewrite A; reflexivity | exact B].
   - apply exec_op_not_alive, Hm.
 Qed.
@@ -482,13 +519,10 @@ Qed.
 Lemma exec_down cfg st o :
   negb (alive (fst (exec_op cfg st o))) = negb (alive st) || down_event (snd (exec_op cfg st o)).
 Proof.
-  destruct o as [sid ended fs|sid|sid|sid ended| |sid]; cbn [exec_op].
+  destruct o as [sid ended fs|sid|sid|sid ended| |sid|sid n|sid inc]; cbn [exec_op].
   - apply headers_down.
   - cbn. rewrite orb_false_r. reflexivity.
-  - unfold out, with_active, ev_rst, ev_hdr, alive.
-    destruct (find_stream sid (s_active st)) as [s|]; [|cbn; rewrite orb_false_r; reflexivity].
-    destruct s as [|[ | [ | | ] | ]|]; destruct (c_tiny cfg); destruct (s_mode st =? 0) eqn:Em;
-      cbn; rewrite ?Em; reflexivity.
+  - destruct (finish_op_facts cfg st sid None) as (_ & H2 & _ & H4). rewrite H4, (alive_mode _ _ H2), orb_false_r. reflexivity.
   - unfold out, with_active, ev_rst, alive.
     destruct (find_stream sid (s_active st)) as [s|]; [|cbn; rewrite orb_false_r; reflexivity].
     destruct s as [|[ [ | | ] | | ]|]; destruct ended; destruct (s_mode st =? 0) eqn:Em;
@@ -496,21 +530,24 @@ Proof.
   - cbn. rewrite orb_true_r. reflexivity.
   - unfold stream_error, out, with_active, ev_rst, alive. cbn [fst snd s_mode].
     destruct (s_mode st =? 0); cbn; reflexivity.
+  - destruct (finish_op_facts cfg st sid (Some n)) as (_ & H2 & _ & H4). rewrite H4, (alive_mode _ _ H2), orb_false_r. reflexivity.
+  - destruct (window_op_facts cfg st sid inc) as (_ & H2 & _ & H4). cbn [exec_op] in H2, H4.
+    rewrite H4, (alive_mode _ _ H2), orb_false_r. reflexivity.
 Qed.
 
 Lemma exec_non_headers_handled cfg st o :
   (forall sid e fs, o <> OHeaders sid e fs) -> s_handled (fst (exec_op cfg st o)) = s_handled st.
 Proof.
-  intros Hn. destruct o as [sid ended fs|sid|sid|sid ended| |sid]; cbn [exec_op].
+  intros Hn. destruct o as [sid ended fs|sid|sid|sid ended| |sid|sid n|sid inc]; cbn [exec_op].
   - exfalso. eapply Hn; reflexivity.
   - reflexivity.
-  - destruct (find_stream sid (s_active st)) as [s|]; [|reflexivity].
-    destruct s as [|[ | [ | | ] | ]|]; try reflexivity; destruct (c_tiny cfg); try reflexivity;
-      destruct (alive st); reflexivity.
+  - apply (finish_op_facts cfg st sid None).
   - destruct (find_stream sid (s_active st)) as [s|]; [|reflexivity].
     destruct s as [|[ [ | | ] | | ]|]; try reflexivity; destruct ended; reflexivity.
   - reflexivity.
   - reflexivity.
+  - apply (finish_op_facts cfg st sid (Some n)).
+  - apply (window_op_facts cfg st sid inc).
 Qed.
 
 Lemma headers_clauses cfg p st sid ended fs :
@@ -564,7 +601,7 @@ Lemma decode_op_headers limit w sid e fs : decode_op limit w = Some (OHeaders si
 Proof. trivial. Qed.
 
 Lemma rel_post cfg p st : rel cfg p st ->
-  rel cfg p (mkst (s_max st) (s_active st) (s_handled st) (s_mode st) (s_post st + 1)).
+  rel cfg p (mkst (s_max st) (s_active st) (s_handled st) (s_mode st) (s_post st + 1) (s_win st)).
 Proof. intros [A B C D E]. constructor; auto. Qed.
 
 Lemma clause_exec cfg p st w o :
@@ -580,9 +617,15 @@ Proof.
                          (s_max (fst (exec_op cfg st o))) (p_down p || down_event (snd (exec_op cfg st o))))
                      (fst (exec_op cfg st o))).
   { constructor; cbn [p_n p_h p_max p_down]; auto. rewrite (r_down _ _ _ R). symmetry. exact Hdown. }
-  destruct o as [sid ended fs|sid|sid|sid ended| |sid].
+  destruct o as [sid ended fs|sid|sid|sid ended| |sid|sid n|sid inc].
   - cbn [fst snd]. split; [|exact Rel'].
     exact (headers_clauses cfg p st sid ended fs R).
+  - cbn [fst snd]. split; [|exact Rel']. cbn [forallb okc fst snd].
+    rewrite exec_non_headers_handled by congruence. rewrite (r_h _ _ _ R), Z.eqb_refl.
+    unfold bounded in Hb. apply Z.leb_le in Hb. rewrite Hb. reflexivity.
+  - cbn [fst snd]. split; [|exact Rel']. cbn [forallb okc fst snd].
+    rewrite exec_non_headers_handled by congruence. rewrite (r_h _ _ _ R), Z.eqb_refl.
+    unfold bounded in Hb. apply Z.leb_le in Hb. rewrite Hb. reflexivity.
   - cbn [fst snd]. split; [|exact Rel']. cbn [forallb okc fst snd].
     rewrite exec_non_headers_handled by congruence. rewrite (r_h _ _ _ R), Z.eqb_refl.
     unfold bounded in Hb. apply Z.leb_le in Hb. rewrite Hb. reflexivity.
@@ -610,7 +653,7 @@ Proof.
   assert (Rel' : rel cfg (mkcs (lenZ (s_active st)) (s_handled st) (s_max st) (p_down p || down_event [])) st).
   { destruct R as [A B C D E]. constructor; cbn [p_n p_h p_max p_down]; auto.
     rewrite D, Ha. reflexivity. }
-  destruct o as [sid ended fs|sid|sid|sid ended| |sid]; cbn [fst snd]; (split; [|exact Rel']);
+  destruct o as [sid ended fs|sid|sid|sid ended| |sid|sid n|sid inc]; cbn [fst snd]; (split; [|exact Rel']);
     cbn [forallb okc fst snd]; rewrite (r_h _ _ _ R), ?Z.eqb_refl, ?Hb; try reflexivity.
   rewrite Z.ltb_irrefl, (r_down _ _ _ R), Ha. cbn [negb andb orb].
   destruct (Z.leb_spec (s_handled st) (s_handled st + 1)); [|lia]. rewrite Z.leb_refl. reflexivity.
@@ -633,9 +676,27 @@ Proof.
     + apply clause_exec; auto.
 Qed.
 
+(* clause 10 (the admission situation classified on the model state) on a model trace *)
+Lemma clause_model_ok cfg p st w o :
+  decode_op (c_limit cfg) w = Some o -> p_h p = s_handled st ->
+  let r := step cfg st o in
+  forallb okc (clause_model cfg st p w (hdr_obs (fst r) ++ snd r)) = true.
+Proof.
+  intros Hd Rh. cbv zeta. unfold clause_model, hdr_obs. rewrite Hd. cbn [app].
+  destruct o as [sid ended fs|sid|sid|sid ended| |sid|sid n|sid inc]; try reflexivity.
+  cbn [forallb okc fst snd Z.eqb Pos.eqb orb]. rewrite andb_true_r.
+  destruct (alive st && legal_id (s_max st) sid && admissible (c_limit cfg) fs &&
+            (c_maxs cfg <=? lenZ (s_active st))) eqn:A; [|reflexivity].
+  apply andb_true_iff in A as [A A4]. apply andb_true_iff in A as [A A3].
+  apply andb_true_iff in A as [A1 A2]. unfold alive in A1. apply Z.eqb_eq in A1. apply Z.leb_le in A4.
+  unfold step. rewrite A1. cbn [Z.eqb orb andb exec_op].
+  rewrite (refused_over_limit cfg st sid ended fs A1 A2 A3 A4). cbn [fst snd s_handled negb orb].
+  rewrite Rh, Z.ltb_irrefl. cbn [negb andb]. apply word_eqb_refl.
+Qed.
+
 Lemma clauses_run cfg : forall ws os p st,
   decode_ops (c_limit cfg) ws = Some os -> rel cfg p st ->
-  forallb okc (clauses_from cfg p ws (run_ops cfg st os)) = true.
+  forallb okc (clauses_from cfg p st ws (run_ops cfg st os)) = true.
 Proof.
   induction ws as [|w ws IH]; intros os p st Hd R; cbn [decode_ops] in Hd.
   - inversion Hd; subst. reflexivity.
@@ -643,9 +704,11 @@ Proof.
     destruct (decode_ops (c_limit cfg) ws) as [os'|] eqn:Hos; [|discriminate].
     inversion Hd; subst. cbn [run_ops].
     destruct (clause_step cfg p st w o Ho R) as [A B]. cbv zeta in A, B.
-    destruct (step cfg st o) as [st' ev]. cbn [fst snd] in A, B. cbn [clauses_from].
+    pose proof (clause_model_ok cfg p st w o Ho (r_h _ _ _ R)) as M. cbv zeta in M.
+    assert (N : model_next cfg st w = fst (step cfg st o)) by (unfold model_next; rewrite Ho; reflexivity).
+    destruct (step cfg st o) as [st' ev]. cbn [fst snd] in A, B, M, N. cbn [clauses_from].
     destruct (clause_op cfg p w (hdr_obs st' ++ ev)) as [cl p']. cbn [fst snd] in A, B.
-    rewrite forallb_app, A. cbn [andb]. eapply IH; eauto.
+    rewrite !forallb_app, A, M, N. cbn [andb]. eapply IH; eauto.
 Qed.
 
 Definition wf (cfg : word) (ops : list word) : bool :=
@@ -661,11 +724,62 @@ Proof.
   destruct (decode_ops (c_limit c) ops) as [os|] eqn:Ho; [|discriminate]. intros _.
   eexists. split; [reflexivity|]. apply (clauses_run c ops os cs0 st0 Ho).
   constructor; try reflexivity. unfold bounded, st0, lenZ. cbn.
-  unfold decode_cfg in Hc. destruct cfg as [|m [|l [|t [|]]]]; try discriminate.
-  match type of Hc with (if ?c then _ else _) = _ => destruct c eqn:E; [|discriminate] end.
-  inversion Hc; subst c. cbn [c_maxs].
-  repeat (apply andb_true_iff in E as [E _]). apply Z.leb_le in E. exact E.
+  unfold decode_cfg in Hc. destruct cfg as [|m [|l [|t [|z [|]]]]]; try discriminate;
+  (match type of Hc with (if ?c then _ else _) = _ => destruct c eqn:E; [|discriminate] end;
+   inversion Hc; subst c; cbn [c_maxs];
+   repeat (apply andb_true_iff in E as [E _]); apply Z.leb_le in E; exact E).
 Qed.
+
+(* ---------- a finished stream is active until its END_STREAM is on the wire ---------- *)
+(* the handler writes a message that does not fit the stream's send window and returns: only the
+   response HEADERS go out, the stream stays in the active set (state 3 / 4), so it still counts
+   against MaxConcurrentStreams - refused_over_limit applies to the resulting state *)
+Theorem blocked_finish_keeps_stream cfg st sid n s :
+  s_mode st = 0 -> c_tiny cfg = false -> find_stream sid (s_active st) = Some s -> 0 <= s < 2 ->
+  window cfg st sid < 5 + n ->
+  let r := exec_op cfg st (OWriteFinish sid n) in
+  snd r = ev_hdr sid 1200 (-1) /\ s_active (fst r) = set_stream sid (3 + s) (s_active st) /\
+  lenZ (s_active (fst r)) = lenZ (s_active st) /\ s_handled (fst r) = s_handled st /\
+  s_mode (fst r) = 0 /\ s_max (fst r) = s_max st /\ window cfg (fst r) sid = window cfg st sid - (5 + n).
+Proof.
+  intros Hm Ht Hf Hs Hw. cbv zeta. cbn [exec_op]. unfold finish_op. rewrite Hf, Ht.
+  destruct (Z.leb_spec 2 s); [lia|]. unfold alive. rewrite Hm. cbn [Z.eqb].
+  destruct (Z.leb_spec 0 (window cfg st sid - (5 + n))); [lia|].
+  cbn [fst snd with_active with_win s_active s_handled s_mode s_max]. rewrite set_stream_len.
+  repeat split; auto. unfold window at 1. unfold with_active, with_win. cbn [s_win find_stream]. rewrite Z.eqb_refl. lia.
+Qed.
+
+(* the WINDOW_UPDATE that lets the queued DATA out: END_STREAM trailers (and RST_STREAM(NO_ERROR)
+   if the client had not half-closed) are written and only now the stream leaves the active set *)
+Theorem window_flushes_blocked cfg st sid inc s :
+  s_mode st = 0 -> find_stream sid (s_active st) = Some s -> 3 <= s -> 0 <= window cfg st sid + inc ->
+  exec_op cfg st (OWindow sid inc) =
+  (with_active st (del_stream sid (s_active st)), ev_hdr sid (-1) 0 ++ (if s =? 3 then ev_rst sid E_NO else [])).
+Proof.
+  intros Hm Hf Hs Hw. cbn [exec_op]. unfold alive. rewrite Hm, Hf. cbn [Z.eqb].
+  destruct (Z.leb_spec 3 s); [|lia]. destruct (Z.leb_spec 0 (window cfg st sid + inc)); [|lia]. reflexivity.
+Qed.
+(* ... and a smaller one leaves everything as it was, but for the credit *)
+Theorem window_too_small cfg st sid inc s :
+  s_mode st = 0 -> find_stream sid (s_active st) = Some s -> window cfg st sid + inc < 0 ->
+  let r := exec_op cfg st (OWindow sid inc) in
+  snd r = [] /\ s_active (fst r) = s_active st /\ window cfg (fst r) sid = window cfg st sid + inc.
+Proof.
+  intros Hm Hf Hw. cbv zeta. cbn [exec_op]. unfold alive. rewrite Hm, Hf. cbn [Z.eqb].
+  destruct (Z.leb_spec 0 (window cfg st sid + inc)); [lia|]. rewrite andb_false_r.
+  cbn [fst snd]. repeat split. unfold window at 1. unfold with_win. cbn [s_win find_stream]. rewrite Z.eqb_refl. lia.
+Qed.
+
+(* MaxConcurrentStreams = 1, the client's SETTINGS_INITIAL_WINDOW_SIZE = 0: stream 1 is accepted,
+   its handler writes 15 bytes and returns; stream 3 is refused; 14 bytes of window are not enough,
+   stream 5 is refused; one more byte flushes stream 1 (trailers, RST_STREAM) and stream 7 is accepted *)
+Definition good_req (sid : Z) : word :=
+  [1; sid; 0; 3; 4; 4; 80; 79; 83; 84; 5; 2; 47; 115; 1; 16; 97;112;112;108;105;99;97;116;105;111;110;47;103;114;112;99].
+Lemma blocked_stream_witness :
+  run [1; 4096; 0; 1] [good_req 1; [9; 1; 10]; good_req 3; [10; 1; 14]; good_req 5; [10; 1; 1]; good_req 7] =
+  Some [[1; 1; 1; 9; 1; 0; 0; 1; 1; 2; 47; 115; -1]; [1; 1; 1; 1; 1; 1200; -1]; [1; 1; 3; 3; 3; 7; 0]; [1; 1; 3];
+        [1; 1; 5; 3; 5; 7; 0]; [0; 1; 5; 1; 1; -1; 0; 3; 1; 0; 0]; [1; 2; 7; 9; 7; 0; 0; 1; 1; 2; 47; 115; -1]].
+Proof. vm_compute. reflexivity. Qed.
 
 (* the literal reading "no handler for a request that carries an invalid content-type field" is
    false: one valid content-type among several is enough (isGRPC is never reset) *)
@@ -673,7 +787,7 @@ Definition mixed_ct_request : list field :=
   [(K_METHOD, v_POST); (K_PATH, [47; 115]); (K_CT, base_ct); (K_CT, [116; 101; 120; 116])].
 Lemma mixed_content_type_refuted :
   all_ct_valid mixed_ct_request = false /\
-  s_handled (fst (headers_step (mkcfg 1 4096 false) st0 1 false mixed_ct_request)) = 1.
+  s_handled (fst (headers_step (mkcfg 1 4096 false false) st0 1 false mixed_ct_request)) = 1.
 Proof. vm_compute. split; reflexivity. Qed.
 
 (* accept_implies_legal with the record spelled out *)
